@@ -242,6 +242,9 @@ theorem applyOpt_serverAlive (e : Eff) (v : Bytes) :
     applyOpt e 111 (b!"ServerAliveInterval=" ++ v) = e :=
   applyOpt_o_other e (b!"ServerAliveInterval") v (by decide) (by decide) (by decide)
 
+theorem applyOpt_escapeChar (e : Eff) : applyOpt e 111 (b!"EscapeChar=none") = e :=
+  applyOpt_o_other e (b!"EscapeChar") (b!"none") (by decide) (by decide) (by decide)
+
 theorem applyOpt_strict (e : Eff) (v : Bytes) (h : e.strict = none) :
     applyOpt e 111 (b!"StrictHostKeyChecking=" ++ v) = { e with strict := some v } := by
   have := applyOpt_o_strict e v
